@@ -174,3 +174,55 @@ def reads_invisible(rep, n, pid="C03"):
                     "source": src, "picks": picks})
     rep.coverage.setdefault("families", {})[fam] = {"cases": done, "stories": sorted(STORIES), "reads": READS}
     rep.coverage["evaluations"] = rep.coverage.get("evaluations", 0) + done
+
+
+ONCE_STORY = (
+    ":: Start\n~ deck = [1, 2, 3, 4, 5, 6, 7, 8, 9]\n~ log = []\n~ seen = []\nTable.\n+ [Draw] -> Show(deck.pop(0))\n+ [Via] -> Via\n\n"
+    ":: Show(card, extra=log.append('d') or len(log))\n~ seen.append(card)\nCard {card} extra {extra} left {len(deck)}\n"
+    "+ [Draw] -> Show(deck.pop(0))\n+ [Named] -> Show(card=deck.pop(0), extra=log.append('k') or 0)\n+ [Via] -> Via\n"
+    "@if len(deck) > 2:\n  + [Block draw] -> Show(deck.pop(0))\n@endif\n\n"
+    ":: Via\nvia\n-> Show(deck.pop(0), 9)\n"
+)
+
+
+def once_sessions(rep, n):
+    """argument and default expressions of a call are evaluated exactly once per navigation (expressions with effects:
+    `-> Show(deck.pop(0))`): each successful choice takes exactly one card, shows the one it took, and evaluates a default
+    once when - and only when - it is used"""
+    from bardic.runtime.engine import BardEngine
+    story = corr_play.compile_source(ONCE_STORY)
+    done = 0
+    for i in range(n):
+        r = rng_for(rep.seed, "once", i)
+        picks = [r.randrange(4) for _ in range(r.randint(2, 7))]
+        with quiet():
+            e = BardEngine(copy.deepcopy(story))
+            deck, log, seen = list(e.state["deck"]), 0, []
+            ok = True
+            for k, p in enumerate(picks):
+                ch = e.current().choices
+                if not ch or len(e.state["deck"]) == 0:
+                    break
+                c = ch[p % len(ch)]
+                try:
+                    out = e.choose(p % len(ch))
+                except Exception as ex:  # noqa
+                    rep.violations.append({"cls": None, "family": "c03-once", "what": f"choice {k} raised {type(ex).__name__}: {str(ex)[:120]}", "source": ONCE_STORY, "picks": picks})
+                    ok = False
+                    break
+                card = deck.pop(0)
+                seen.append(card)
+                uses_default = c["target"] == "Show" and "extra" not in c.get("args", "")
+                log += 1 if (uses_default or "log.append" in c.get("args", "")) else 0
+                want = f"Card {card} extra {log if uses_default else (0 if 'extra=' in c.get('args', '') else 9)} left {len(deck)}"
+                st = e.state
+                if st["deck"] != deck or st["seen"] != seen or len(st["log"]) != log or want not in out.content:
+                    rep.violations.append({"cls": None, "family": "c03-once", "source": ONCE_STORY, "picks": picks[:k + 1],
+                                           "what": (f"after choice {k} ('{c['text']}' -> {c['target']}({c.get('args', '')})) exactly one card should be gone and shown: "
+                                                    f"expected deck {deck}, shown cards {seen}, {log} default/keyword evaluations, text '{want}'; "
+                                                    f"the engine has deck {st['deck']}, seen {st['seen']}, log {st['log']}, text {out.content.strip()!r}")})
+                    ok = False
+                    break
+        done += 1
+    rep.coverage.setdefault("families", {})["c03-once"] = {"cases": done}
+    rep.coverage["evaluations"] = rep.coverage.get("evaluations", 0) + done
